@@ -26,6 +26,10 @@ def skeletons():
     # second hour (its link is shut by the simulator) and refills when the demand drops
     sk["drain"] = spec([R("R", 33.0), J("J1", 0.0, [[0.06, "PD", None]]), T("T", init=0.8)],
                        [P("p1", "R", "J1"), P("p2", "J1", "T")], OPTS(dur=6 * 3600))
+    # sources joined DIRECTLY by links (no junction in between): reservoir - tank - tank, then the demand junctions
+    sk["direct"] = spec([R("R"), T("T", elev=34.0, diam=12.0), T("T2", elev=31.0, diam=10.0), J("J1"), J("J2", 5.0, [[0.03, None, None]])],
+                        [P("p1", "R", "T", L=900.0, D=0.2), P("p2", "T", "T2", L=300.0, D=0.2), P("p3", "T2", "J1"), P("p4", "J1", "J2")],
+                        OPTS(dur=6 * 3600))
     for s in sk.values():
         s["patterns"] = dict(PATS)
     return sk
